@@ -645,9 +645,16 @@ class CSSStyleSheet(cssutils.stylesheets.StyleSheet):
             # variables?
 
         elif isinstance(rule, cssutils.css.CSSRuleList):
-            # insert all rules
-            for i, r in enumerate(rule):
-                self.insertRule(r, index + i)
+            # insert all rules, or none of them if one is rejected
+            inserted = 0
+            try:
+                for i, r in enumerate(rule):
+                    self.insertRule(r, index + i)
+                    inserted += 1
+            except xml.dom.DOMException:
+                for _ in range(inserted):
+                    self.deleteRule(index)
+                raise
             return index
 
         if not rule.wellformed:
